@@ -75,7 +75,7 @@ def Live (s : St) : Ref → Prop
   | .rt tok => ∃ r, r ∈ s.rtoks ∧ r.token = tok ∧ r.live = true
 
 theorem setUserinfo_ok {s : St} {iss id sub : String} {u : ResUserInfo} (h : s.SetUserinfoFromToken iss id sub = .ok u) :
-    ∃ t, s.liveTok iss id = some t ∧ u = { Subject := t.subject, tokenID := t.id } := by
+    ∃ t, s.liveTok iss id = some t ∧ u = { Subject := if t.openid then t.subject else "", tokenID := t.id } := by
   unfold St.SetUserinfoFromToken at h
   split at h
   · rename_i t ht; simp at h; exact ⟨t, ht, h.symm⟩
@@ -137,7 +137,9 @@ theorem getTokenIDAndSubject_eq (now : Int) (p : ResProvider) (tok : String) :
     simp only []
     rcases split_cases (Hand.resSplit plain ":") with ⟨a, b, h⟩ | ⟨h1, h2⟩
     · simp [h, Go.len, HasLen.len, Go.index, resolved]
-    · rw [if_pos h1]
+    · -- (either shape of the guard: `if len != 2 then refuse else …` or `if len == 2 then … else refuse`)
+      have h1' : (Go.len (Hand.resSplit plain ":") == (2 : Int)) = false := by simpa [bne] using h1
+      first | rw [if_pos h1] | rw [if_neg (by rw [h1']; exact Bool.false_ne_true)]
       split <;> simp_all [resolved]
   | error e =>
     simp only []
@@ -157,7 +159,9 @@ theorem getTokenIDAndSubjectForRevocation_eq (now : Int) (p : ResProvider) (tok 
     simp only []
     rcases split_cases (Hand.resSplit plain ":") with ⟨a, b, h⟩ | ⟨h1, h2⟩
     · simp [h, Go.len, HasLen.len, Go.index, resolved]
-    · rw [if_pos h1]
+    · -- (either shape of the guard: `if len != 2 then refuse else …` or `if len == 2 then … else refuse`)
+      have h1' : (Go.len (Hand.resSplit plain ":") == (2 : Int)) = false := by simpa [bne] using h1
+      first | rw [if_pos h1] | rw [if_neg (by rw [h1']; exact Bool.false_ne_true)]
       split <;> simp_all [resolved]
   | error e =>
     -- the key-set recorder of the revocation reader hands the verifier on unchanged and never holds an error in this model
@@ -176,7 +180,9 @@ theorem getTokenIDAndClaims_eq (now : Int) (p : ResProvider) (tok : String) :
     simp only []
     rcases split_cases (Hand.resSplit plain ":") with ⟨a, b, h⟩ | ⟨h1, h2⟩
     · simp [h, Go.len, HasLen.len, Go.index, resolved]
-    · rw [if_pos h1]
+    · -- (either shape of the guard: `if len != 2 then refuse else …` or `if len == 2 then … else refuse`)
+      have h1' : (Go.len (Hand.resSplit plain ":") == (2 : Int)) = false := by simpa [bne] using h1
+      first | rw [if_pos h1] | rw [if_neg (by rw [h1']; exact Bool.false_ne_true)]
       split <;> simp_all [resolved]
   | error e =>
     simp only []
